@@ -113,7 +113,7 @@ int do_op (string line) {
   case "sent": obs[b]->doact (a, v[c], v[d]); break;
   case "rmsent": obs[b]->rmact (a); break;
   case "err": boom (v[a], v[b], 3); break;
-  case "efun": run_efun (a, v[b], v[c]); break;
+  case "efun": catch (run_efun (a, v[b], v[c])); break;
   default: VL ("badop " + line);
   }
   return 1;
